@@ -742,6 +742,17 @@ func Extract(repo string, t Target) ([]Access, error) {
 			if isMethod && len(fd.Recv.List[0].Names) == 1 {
 				recvName = fd.Recv.List[0].Names[0].Name
 			}
+			// a plain (possibly generic) function whose FIRST parameter is a pointer to the target struct is a
+			// method in all but syntax (utils/cache.go: clearKey(cache *MemoryCache[K, V], key K)): walk it with
+			// that parameter as the receiver.  It has no receiver call sites, so it inherits no lockset.
+			if fd.Recv == nil && fd.Type.Params != nil && len(fd.Type.Params.List) > 0 {
+				p0 := fd.Type.Params.List[0]
+				if _, ptr := p0.Type.(*ast.StarExpr); ptr && len(p0.Names) == 1 && baseTypeName(p0.Type) == t.Type &&
+					!initSet[fd.Name.Name] {
+					isMethod = true
+					recvName = p0.Names[0].Name
+				}
+			}
 			anyRecv := ""
 			if fd.Recv != nil && len(fd.Recv.List) == 1 && len(fd.Recv.List[0].Names) == 1 {
 				anyRecv = fd.Recv.List[0].Names[0].Name
